@@ -107,7 +107,7 @@ def run_tlc(
     extra_files: dict[str, str] | None = None,
     jvm_opts: Sequence[str] = (),
     dfs_queue: bool = False,
-    heap: str = "8g",
+    heap: str = "5g",
 ) -> TLCResult:
     """Run TLC on `module`.tla with config file name `cfg` (looked up in spec/mc or extra_files)."""
     d = stage_spec(cfg, extra_files)
@@ -116,6 +116,7 @@ def run_tlc(
         "java",
         "-XX:+UseParallelGC",
         f"-Xmx{heap}",
+        "-Xss64m",
         *jvm_opts,
     ]
     if dfs_queue:
